@@ -190,6 +190,8 @@ def run(ctx: RunCtx) -> None:
             CT = {"Content-Type": M.ARROW_CT}
             seen: set[str] = set()
             misses: list[str] = []
+            probed: list[tuple[str, int]] = []
+            found: dict[str, dict[str, tuple[int, str]]] = {}
 
             def probe(cls: str, verb: str, path: str, body: bytes | None = None, headers: dict[str, str] | None = None,
                       expect: tuple[int, ...] | None = None) -> Any:
@@ -215,12 +217,10 @@ def run(ctx: RunCtx) -> None:
                             problems.append((f"{h}:unexpected", f"{h}: {got[h]!r} present although its feature is not configured"))
                         elif h in want and got[h] != want[h]:
                             problems.append((f"{h}:wrong-value", f"{h}: {got[h]!r}, configuration implies {want[h]!r}"))
-                for site, text in problems:
-                    sig = f"{cls}:{site}"
-                    if sig not in seen:
-                        seen.add(sig)
-                        ctx.violation("C40", "headers", sig, f"{verb} {path} -> HTTP {res.status_code} ({cls}): {text}; capability headers on this "
-                                      f"response: {got}; config {cfg}")
+                probed.append((cls, res.status_code))
+                for key, text in problems:
+                    found.setdefault(key, {})[cls] = (res.status_code, f"{verb} {path} -> HTTP {res.status_code} ({cls}): {text}; capability "
+                                                      f"headers on this response: {got}")
                 return res
 
             P = prefix
@@ -276,6 +276,27 @@ def run(ctx: RunCtx) -> None:
             # compressed response
             if cfg["compression"] != "off":
                 probe("unary-compressed", "POST", f"{P}/u_ok", body_of("u_ok", {"tag": 1, "a0": 3}), {**CT, **A, "Accept-Encoding": "gzip"}, (200,))
+
+            # ---- report: one signature per cause.  A problem on every response is one finding; a problem on every response of one
+            # status class is one finding; otherwise it is reported per response class.
+            all_classes = {c for c, _ in probed}
+            for key, by_cls in sorted(found.items()):
+                if set(by_cls) == all_classes:
+                    c0 = sorted(by_cls)[0]
+                    ctx.violation("C40", "headers", f"every-response:{key}", f"on all {len(all_classes)} probed response classes, e.g. "
+                                  f"{by_cls[c0][1]}; config {cfg}")
+                    continue
+                by_status: dict[int, list[str]] = {}
+                for c, (st, _) in by_cls.items():
+                    by_status.setdefault(st, []).append(c)
+                for st, cs in sorted(by_status.items()):
+                    same_status = {c for c, s_ in probed if s_ == st}
+                    if len(same_status) >= 2 and set(cs) == same_status:
+                        ctx.violation("C40", "headers", f"every-{st}:{key}", f"on all {len(cs)} probed response classes answered HTTP {st} "
+                                      f"({sorted(cs)}), e.g. {by_cls[sorted(cs)[0]][1]}; config {cfg}")
+                    else:
+                        for c in sorted(cs):
+                            ctx.violation("C40", "headers", f"{c}:{key}", f"{by_cls[c][1]}; config {cfg}")
 
             # ---- the client's capability probe
             net = s2.NetClient(cl, prefix=prefix)
